@@ -17,7 +17,7 @@ RULE = ("convex-constrained solver runs: 1-3 balls/half-spaces/boxes with a comm
 ASSUMPTIONS = ["projectors supplied by the harness are exact projections",
                "tol / max_iter are those each logged call actually received: the model's own calls use the defaults (1e-10, 100) whatever "
                "dykstra.d_tol / dykstra.max_iters say (recorded as an observation)"]
-N = {"quick": 640, "thorough": 8000}
+N = {"quick": 520, "thorough": 8000}
 CASE_TIMEOUT = {"quick": 400, "thorough": 900}
 NSAMPLES = 4
 KEEP_MODS = ("dfols.model", "dfols.solver", "dfols.controller")
